@@ -131,10 +131,15 @@ QWLeave(q, m, o, msg) ==
   IN [Flag(q, v) EXCEPT !.inSink = NoM, !.pendErr = IF o = "err" THEN msg ELSE "",
                         !.npanic = IF o = "panic" THEN @ + 1 ELSE @]
 
+\* a thread is about to call flush() / stats() on a handle: it is a thread that USES the sink (like every emitting thread);
+\* the wrapped sink's emit and the error handler must never run on such a thread (C10, C16: "on the background thread")
+QFCall(q, t) == [q EXCEPT !.drivers = @ \cup {t}]
+
 QEH(q, msg, t) ==
   LET v == (IF q.pendErr = "" THEN {<<"C16", "handler-invoked-without-a-failure-or-twice">>}
             ELSE IF q.pendErr # msg THEN {<<"C16", "handler-got-a-different-error">>} ELSE {})
            \cup (IF t # q.sinkTid THEN {<<"C16", "handler-not-on-the-background-thread">>} ELSE {})
+           \cup (IF t \in q.drivers THEN {<<"C16", "handler-ran-on-a-thread-that-uses-the-sink">>} ELSE {})
            \cup (IF q.inSink # NoM THEN {<<"C16", "handler-invoked-while-the-sink-is-running">>} ELSE {})
   IN [Flag(q, v) EXCEPT !.pendErr = ""]
 
